@@ -297,7 +297,11 @@ def simhod_case(case):
         if hod != want:
             viols.append(("simhod.spec", f"run started at {Y}-{Mo}-{D} {h:02d}:{m:02d}, step {step_min} min: in increment {kk} the EV parks were handed hour of day {hod}, start + elapsed gives {want}"))
             break
-    return dict(ops=[], impl=[], viols=viols, nontrivial=("simhod", Y > 0, Mo > 0, D > 0, m > 0, step_min, case["unit"], len(seen) > 0, k0 > 1), tag="simhod")
+    # ... and against the model's hour of day (C17.hourOfDay_spec), for the first few observed calls
+    few = seen[:8]
+    ops = [f"time hod {h} {m} 0 {fr(Fraction(kk * step_min, 60))} 3" for kk, _ in few]
+    impl = [str(int(hod)) if hod == int(hod) else str(hod) for _, hod in few]
+    return dict(ops=ops, impl=impl, viols=viols, nontrivial=("simhod", Y > 0, Mo > 0, D > 0, m > 0, step_min, case["unit"], len(seen) > 0, k0 > 1), tag="simhod")
 
 
 def gen(rng, n_each):
